@@ -15,16 +15,6 @@
 #include "shim/verif.h"
 #define main proxyd_main
 
-#ifdef SERVICE_REQ_CONTRACT
-/* contract of vbi_proxyd_take_service_req, from its body: new_strict indexes
-   req->services[VBI_MAX_STRICT - VBI_MIN_STRICT + 1] */
-#include <stdlib.h>
-struct PROXY_CLNT_s;
-static int vbi_proxyd_take_service_req (struct PROXY_CLNT_s *req, unsigned int new_services, int new_strict, char *errormsg)
-CONTRACT (__CPROVER_requires (new_strict >= -1 && new_strict <= 2)
-	  __CPROVER_assigns ()
-	  __CPROVER_ensures (1));
-#endif
 
 #include "daemon/proxyd.c"
 #undef main
@@ -132,27 +122,26 @@ void h_token_grant (void)
 }
 
 /* ------------------------------------------------------------------ SERVICE_REQ strictness */
-#ifdef SERVICE_REQ_CONTRACT
-struct in_sr { VBIPROXY_SERVICE_REQ body; int dev; };
-
-/* the message queue of the client is empty; queue handling is not the subject here */
-void vbi_proxy_msg_write_stub (void);
+#ifdef SERVICE_HARNESS
+#ifdef VERIF_CBMC
+/* the acquisition thread is not started in this sequential analysis (assumed: thread creation fails or succeeds
+   without touching the client structures) */
+int pthread_create (pthread_t *t, const pthread_attr_t *a, void *(*fn)(void *), void *arg) { int nondet_int (void); return nondet_int (); }
+#endif
+struct in_sr { VBIPROXY_SERVICE_REQ body; };
 
 void h_service_req (void)
 {
 	DECL_INPUTS (in_sr, in);
 	static PROXY_CLNT c;
-	vbi_bool r;
 
-	ASSUME (in.dev >= 0 && in.dev < 4);
-	c.dev_idx = in.dev; c.state = REQ_STATE_FORWARD; c.p_sliced = NULL; c.p_next = NULL;
-	proxy.p_clnts = &c; proxy.dev_count = 4;
+	c.dev_idx = 0; c.state = REQ_STATE_FORWARD; c.p_sliced = NULL; c.p_next = NULL;
+	proxy.p_clnts = &c; proxy.dev_count = 1;
 	/* a SERVICE_REQ accepted by vbi_proxyd_check_msg: any body */
 	c.msg_buf.head.type = MSG_TYPE_SERVICE_REQ;
 	c.msg_buf.head.len = sizeof (VBIPROXY_MSG_HEADER) + sizeof (c.msg_buf.body.service_req);
 	c.msg_buf.body.service_req = in.body;
-	r = vbi_proxyd_take_message (&c, &c.msg_buf);
-	OBL (r, "srv.a service request in the forwarding state is taken");
+	(void) vbi_proxyd_take_message (&c, &c.msg_buf);
 	CANARY ("service_req");
 }
 #endif
